@@ -332,3 +332,31 @@ Proof.
   replace (2 ^ 31 - 1 <? u) with false by (symmetry; apply Z.ltb_ge; lia).
   rewrite Z.mod_small by lia. reflexivity.
 Qed.
+
+(* ================================================================= LOCATE on arbitrary (multi-byte) strings *)
+Lemma lower_suffix_0 s : lower_suffix s 0 = utf8 (to_lower s).
+Proof. destruct s; reflexivity. Qed.
+
+(* two-argument LOCATE, any strings: the answer is the first BYTE offset (plus one) at which the lower-cased
+   substring occurs in the lower-cased string -- a character position only when everything before it is ASCII *)
+Theorem locate_first_byte_occurrence (sub s : list N) :
+  utf8 s <> [] ->
+  let bs := utf8 (to_lower s) in let bsub := utf8 (to_lower sub) in
+  exists p, locate_core sub s 1 = Val p /\
+    ((p = 0 /\ forall j, 0 <= j <= len bs -> is_prefix N.eqb bsub (drop j bs) = false) \/
+     (1 <= p <= len bs + 1 /\ is_prefix N.eqb bsub (drop (p - 1) bs) = true /\
+      forall j, 0 <= j < p - 1 -> is_prefix N.eqb bsub (drop j bs) = false)).
+Proof.
+  intros Hne bs bsub. unfold locate_core. change (1 <=? 0) with false. cbn [orb].
+  assert (Hl : 0 < len (utf8 s)).
+  { destruct (utf8 s); [congruence|]. rewrite len_cons. pose proof (len_nonneg l). lia. }
+  replace (len (utf8 s) <? 1) with false by (symmetry; apply Z.ltb_ge; lia). rewrite andb_false_r.
+  replace (len (utf8 s) =? 0) with false by (symmetry; apply Z.eqb_neq; lia). rewrite andb_false_r.
+  replace (len (utf8 s) <? 1 - 1) with false by (symmetry; apply Z.ltb_ge; lia).
+  replace (1 - 1) with 0 by lia. rewrite lower_suffix_0. fold bs bsub. unfold index_of.
+  pose proof (index_from_spec bsub bs 0) as H. cbv zeta in H. destruct H as [[H1 H2]|[H1 [H2 H3]]].
+  - rewrite H1. cbn [Z.eqb]. eexists; split; [reflexivity|]. left. split; [reflexivity|exact H2].
+  - set (r := index_from bsub bs 0) in *. replace (r =? -1) with false by (symmetry; apply Z.eqb_neq; lia).
+    eexists; split; [reflexivity|]. right. rewrite Z.sub_0_r in *. replace (r + 1 - 1) with r by lia.
+    split; [lia|]. split; assumption.
+Qed.
